@@ -71,7 +71,7 @@ func cellMap(run *bsRun) []hx.Sx {
 }
 
 func genC15(o *hx.Out, r *hx.Rng, tier string, replay string) error {
-	o.Rule = "vary-warnings: tables of 2-4 columns x 24-40 rows where -row .name merges sub-benchmarks differing in /format, /n (and the note: file key under -table goos; columns by file or by -col /v), so that \"benchmarks vary in ...\" arises in the baseline cell AND other cells of the same row (same / different field lists), only in the baseline, only elsewhere, nowhere; each run repeatedly at GOMAXPROCS 1,2,4,16 in text and csv (stdout and the csv warning stream compared byte for byte), twice more in process and under the -race build; the first run's text footnotes and csv warnings are compared with the rendering model of the tables in which every cell carries the warning derived from the residue keys of its OWN measurements. benchstat inputs from the C14 generator; each is run through the real binary several times across GOMAXPROCS in {1,2,3,16} in text and csv (bytes compared), a subset under a -race build, twice in process (fresh map seeds), and once more with the benchmark lines of every configuration block permuted (cell contents compared as a map keyed by table/row/column labels). non-trivial = at least two cells; distinct by input"
+	o.Rule = "nan-inf (tag 8): 1-3 files, 2-4 benchmarks (shared by all files: +Inf / -Inf among the values; in one file only: NaN, +Inf, -Inf; spellings NaN nan Inf inf +Inf -Inf Infinity), 1-2 units, samples of 1..32 values, benchmarks interleaved; five variants per input with the lines of every benchmark reordered within the positions it occupies (as generated, special values first, last, in the middle, shuffled); every variant in process (cells with the values in order of arrival) and through the binary in text and csv at GOMAXPROCS 1 and 4, the first ones under -race: each cell's sample must be the NaN-first ascending arrangement of its measurements, cells and bytes identical for all variants. vary-warnings: tables of 2-4 columns x 24-40 rows where -row .name merges sub-benchmarks differing in /format, /n (and the note: file key under -table goos; columns by file or by -col /v), so that \"benchmarks vary in ...\" arises in the baseline cell AND other cells of the same row (same / different field lists), only in the baseline, only elsewhere, nowhere; each run repeatedly at GOMAXPROCS 1,2,4,16 in text and csv (stdout and the csv warning stream compared byte for byte), twice more in process and under the -race build; the first run's text footnotes and csv warnings are compared with the rendering model of the tables in which every cell carries the warning derived from the residue keys of its OWN measurements. benchstat inputs from the C14 generator; each is run through the real binary several times across GOMAXPROCS in {1,2,3,16} in text and csv (bytes compared), a subset under a -race build, twice in process (fresh map seeds), and once more with the benchmark lines of every configuration block permuted (cell contents compared as a map keyed by table/row/column labels). non-trivial = at least two cells; distinct by input"
 	exe, err := buildBenchstat(false)
 	if err != nil {
 		return err
@@ -207,6 +207,10 @@ func genC15(o *hx.Out, r *hx.Rng, tier string, replay string) error {
 	}
 	// over-aggregation warnings in several cells of one row, many rows (c15warn.go)
 	if err := c15GenVaryCases(o, r.Split(), tier, exe, raceExe); err != nil {
+		return err
+	}
+	// NaN / +Inf / -Inf measurements in samples of at most 32 values, lines permuted (c15nan.go)
+	if err := c15GenNaNCases(o, r.Split(), tier, exe, raceExe); err != nil {
 		return err
 	}
 	// all invocations once more inside one process: forwards, then backwards, so that every
